@@ -9,14 +9,17 @@ RULE = (
     "every prefix (trie node) of length 1..N (or 1..H for N=inf) over the dyadic grid {u*i/k}, for every "
     "configuration of the menu (test x estimator/bet x (u,t) x N x tuning parameters x random_order); a case is "
     "(configuration, prefix); an outcome is non-trivial when the reported p-value is strictly between 0 and 1; "
-    "distinct = distinct (configuration, p, history) triples"
+    "distinct = distinct (configuration, p, history) triples.  Plus, for the six tests with the alternative / bet / padding that makes "
+    "a factor exactly 0 possible (eta = u, lambda = 1/t... g = 0): the samples u^n 0 u, u^n 0 0 and 0 u^n 0 for every n up to 170 with t = 1/128 "
+    "(thorough: up to 1100 with t = 1/2), where the running product leaves the floating-point range before the zero arrives; and betting_mart (IID) with the largest legal "
+    "bet lambda = 1/t, written 1/t or obtained from eta_to_lam(u, t), for t = 1/100..99/100, u in {0.7, 1, 2}, every 0/u sample of length <= 3"
 )
 ASSUMPTIONS = [
     "values restricted to dyadic grids so that sums are exact in binary floating point",
     "Wald SPRT with finite N and random_order=False is refused by documented contract and only counted as skipped",
     "comparison tolerance 1e-12 for p == min(history) / last(history)",
 ]
-REQUIRE_VAC = ["p_strictly_inside", "mu_eq_0", "mu_gt_u", "mu_lt_0", "x_eq_mu", "random_order_false_nodes"]
+REQUIRE_VAC = ["p_strictly_inside", "mu_eq_0", "mu_gt_u", "mu_lt_0", "x_eq_mu", "random_order_false_nodes", "samples_driving_the_product_out_of_range", "largest_legal_bet_cases"]
 
 
 def bounds(tier):
@@ -93,14 +96,111 @@ def run_cfg(cfg, rec):
             rec.sample({"config": s1.label(cfg), "x": [str(v) for v in xs], "p": obs["p"], "history": obs["hist"], "exc": obs["exc"]})
 
 
+# ---------------------------------------------------------------- products that leave the floating-point range
+def range_cases(tier):
+    """(method, t, N, shape, n): samples u^n 0 u, u^n 0 0, 0 u^n 0 (u = 1) for EVERY n in 0..n_max: a long favourable run
+    takes the running product past the largest float (or below the smallest), and a later factor of exactly 0 (or inf)
+    must not turn the history into NaN.  Small t makes the product overflow within 160 draws, t = 1/2 needs 1024."""
+    methods = [("kaplan_wald", None, None, {"g": 0}), ("kaplan_markov", None, None, {"g": 0}), ("kaplan_kolmogorov", None, None, {"g": 0}),
+               ("alpha_mart", None, None, {"eta": "1"}), ("wald_sprt", None, None, {"eta": "1"}), ("betting_mart", None, "fixed_bet", {"lam": "1"})]
+    out = []
+    for m in methods:
+        for t, nmax in (("1/128", 170),) + ((("1/2", 1100),) if tier == "thorough" else ()):
+            for N in ((None,) if m[0] in ("kaplan_wald", "kaplan_markov") else ((10 ** 6,) if m[0] == "kaplan_kolmogorov" else (None, 10 ** 6))):
+                out.append((m, t, N, nmax))
+    return out
+
+
+def range_judge(m, t, N, shape, n, ro):
+    cfg = {"test": m[0], "estim": m[1], "bet": m[2], "kw": m[3], "u": "1", "t": t, "N": N, "H": None, "k": 2, "ro": ro}
+    xs = {"u^n 0 u": [1.0] * n + [0.0, 1.0], "u^n 0 0": [1.0] * n + [0.0, 0.0], "0 u^n 0": [0.0] + [1.0] * n + [0.0]}[shape]
+    import numpy as np
+    import warnings
+    with warnings.catch_warnings():
+        warnings.simplefilter("ignore")
+        try:
+            p, h = s1.make(cfg).test(np.array(xs))
+            obs = {"exc": None, "p": float(p), "hist": [float(v) for v in np.asarray(h, dtype=float).ravel()]}
+        except Exception as e:  # noqa
+            obs = {"exc": f"{type(e).__name__}: {str(e)[:80]}", "p": None, "hist": None}
+    return [(k + "|beyond-float-range", w + f" [sample {shape} with n={n}, t={t}, N={N}]") for k, w in judge(cfg, tuple(range(len(xs))), obs)]
+
+
+def run_range(sh, rec):
+    _, m, t, N, nmax = sh
+    for n in range(0, nmax + 1):
+        rec.state()
+        for shape in ("u^n 0 u", "u^n 0 0", "0 u^n 0"):
+            for ro in (True, False):
+                if m[0] == "wald_sprt" and N is not None and not ro:
+                    continue
+                rec.trans()
+                rec.evals()
+                rec.vac("samples_driving_the_product_out_of_range")
+                for key, what in range_judge(m, t, N, shape, n, ro):
+                    rec.violate(key, what, {"range": True, "m": [m[0], m[1], m[2], m[3]], "t": t, "N": N, "shape": shape, "n": n, "ro": ro})
+
+
+# ---------------------------------------------------------------- bets at the edge of what is allowed
+def edge_judge(u, t100, how, xs, ro):
+    """IID sampling, null mean t = t100/100 (not a binary fraction), the largest legal bet lambda = 1/t, obtained either as
+    1/t or from the library's own eta_to_lam(u, t): a draw of 0 makes the factor 1 - lambda t, which is 0 up to rounding"""
+    import numpy as np
+    import warnings
+    from shangrla.core.NonnegMean import NonnegMean
+    t = t100 / 100
+    with warnings.catch_warnings():
+        warnings.simplefilter("ignore")
+        try:
+            lam = 1 / t if how == "1/t" else float(NonnegMean(u=u, t=t).eta_to_lam(u, t))
+            nm = NonnegMean(test=NonnegMean.betting_mart, bet=NonnegMean.fixed_bet, u=u, N=np.inf, t=t, lam=lam, random_order=ro)
+            p, h = nm.test(np.array(xs, dtype=float))
+            obs = {"exc": None, "p": float(p), "hist": [float(v) for v in np.asarray(h, dtype=float).ravel()]}
+        except Exception as e:  # noqa
+            obs = {"exc": f"{type(e).__name__}: {str(e)[:80]}", "p": None, "hist": None}
+    cfg = {"test": "betting_mart", "estim": None, "bet": "fixed_bet", "kw": {}, "u": str(u), "t": f"{t100}/100", "N": None, "H": None, "k": 1, "ro": ro}
+    return [(k + "|largest-legal-bet", w + f" [u={u}, t={t100}/100, lambda = {how} = {lam!r}, sample {xs}]") for k, w in judge(cfg, tuple(range(len(xs))), obs)]
+
+
+def run_edge(sh, rec):
+    import itertools
+    _, u = sh
+    for t100 in range(1, 100):
+        if t100 / 100 >= u:
+            continue
+        rec.state()
+        for how in ("1/t", "eta_to_lam(u,t)"):
+            for n in (1, 2, 3):
+                for xs in itertools.product((0.0, float(u)), repeat=n):
+                    for ro in (True, False):
+                        rec.trans()
+                        rec.evals()
+                        rec.vac("largest_legal_bet_cases")
+                        for key, what in edge_judge(u, t100, how, list(xs), ro):
+                            rec.violate(key, what, {"edge": True, "u": u, "t100": t100, "how": how, "xs": list(xs), "ro": ro})
+
+
+def run_shard(sh, rec):
+    if isinstance(sh, tuple) and sh and sh[0] == "range":
+        return run_range(sh, rec)
+    if isinstance(sh, tuple) and sh and sh[0] == "edge":
+        return run_edge(sh, rec)
+    return run_cfg(sh, rec)
+
+
 def explore(tier, seed):
     cfgs = s1.configs(tier, ro_values=(True, False)) + s1.nd_configs(tier) + s1.long_configs(tier) + s1.bign_configs(tier) + s1.vlong_configs(tier)
-    rec = core.pmap(run_cfg, cfgs, seed, progress="C11")
+    rec = core.pmap(run_shard, cfgs + [("range",) + c for c in range_cases(tier)] + [("edge", 1), ("edge", 2), ("edge", 0.7)], seed, progress="C11")
     rec.vac("skipped_sprt_finiteN_not_random_order", sum(1 for _ in []))
     return rec
 
 
 def run_case(case):
+    if case.get("edge"):
+        return edge_judge(case["u"], case["t100"], case["how"], case["xs"], case["ro"])
+    if case.get("range"):
+        m = case["m"]
+        return range_judge((m[0], m[1], m[2], m[3]), case["t"], case["N"], case["shape"], case["n"], case["ro"])
     cfg, idx = case["cfg"], tuple(case["idx"])
     g = s1.grid(cfg)
     obs = s1.observe(cfg, [g[i] for i in idx])
